@@ -106,6 +106,22 @@ ENDPOINTS = ["http://a.test/", "http://a.test:8080/", "https://a.test/", "http:/
              "https://a.test/|ssl=False", "https://a.test/|ssl=fpA", "https://a.test/|ssl=fpB"]
 
 
+# proxy identity of a request: |pid=auth:<user> (proxy_auth) or |pid=hdr:<Name>=<value>[,<Name>=<value>...] (proxy_headers, in that order)
+PROXY_IDS = ["", "auth:alice", "auth:bob", "hdr:Proxy-Authorization=Bearer t1", "hdr:Proxy-Authorization=Bearer t2", "hdr:X-Tenant=t1", "hdr:X-Tenant=t2", "hdr:X-Other=t1",
+             "hdr:X-Tenant=t1,X-Other=o", "hdr:X-Other=o,X-Tenant=t1"]
+PROXY_ENDPOINTS = ["http://a.test/|proxy=http://p.test:3128" + ("|pid=" + i if i else "") for i in PROXY_IDS] + ["http://a.test/|proxy=http://p.test:3129|pid=hdr:X-Tenant=t1"]
+
+
+def proxy_identity(pid):
+    """What the statement calls the proxy identity beside the proxy URL: credentials / the set of (header, value) pairs. Order of headers is not part of it."""
+    if not pid:
+        return None
+    kind, _, rest = pid.partition(":")
+    if kind == "auth":
+        return ("auth", rest)
+    return ("hdr",) + tuple(sorted((n.lower(), val) for n, _, val in (x.partition("=") for x in rest.split(","))))
+
+
 def shards(tier, seed):
     q = tier == "quick"
     out = []
@@ -448,7 +464,8 @@ def run_case(case, rec, seed=0):
         w.pipes.append(pipe)
         sslv = getattr(req, "ssl", True)
         ssld = "default" if sslv is True else ("False" if sslv is False else "fp" + chr(sslv.fingerprint[0]) if hasattr(sslv, "fingerprint") else "ctx")
-        key_of_pipe.append((req.url.scheme, req.url.host, req.url.port, str(req.proxy) if req.proxy else None, ssld))
+        opener = reqs[int(req.url.path.rpartition("r")[2])]["endpoint"].partition("|pid=")[2]
+        key_of_pipe.append((req.url.scheme, req.url.host, req.url.port, str(req.proxy) if req.proxy else None, ssld, proxy_identity(opener)))
         tidx = len(w.pipes) - 1
 
         def wh(tr, data, tidx=tidx):
@@ -475,11 +492,16 @@ def run_case(case, rec, seed=0):
 
     async def one(k, session, got, go):
         spec = reqs[k]
-        ep, _, sslopt = spec["endpoint"].partition("|ssl=")
+        epid, _, pid = spec["endpoint"].partition("|pid=")
+        ep, _, sslopt = epid.partition("|ssl=")
         url, _, px = ep.partition("|proxy=")
         url = url + f"r{k}"
         mode = spec["mode"]
         kw = {}
+        if pid.startswith("auth:"):
+            kw["proxy_auth"] = aiohttp.BasicAuth(pid[5:], "pw-" + pid[5:])
+        elif pid.startswith("hdr:"):
+            kw["proxy_headers"] = [tuple(x.split("=", 1)) for x in pid[4:].split(",")]
         if px:
             kw["proxy"] = px
         if sslopt == "False":
@@ -676,12 +698,15 @@ def run_case(case, rec, seed=0):
     for k in sorted(first_write):
         ti, it = first_write[k]
         # key isolation
-        ep, _, sslopt = reqs[k]["endpoint"].partition("|ssl=")
+        epid, _, pid = reqs[k]["endpoint"].partition("|pid=")
+        ep, _, sslopt = epid.partition("|ssl=")
         url, _, px = ep.partition("|proxy=")
         u = URL(url)
-        key = (u.scheme, u.host, u.port, px or None, sslopt or "default")
+        key = (u.scheme, u.host, u.port, px or None, sslopt or "default", proxy_identity(pid))
         kp = key_of_pipe[ti]
-        if (kp[0], kp[1], kp[2], kp[3].rstrip("/") if kp[3] else None, kp[4]) != (key[0], key[1], key[2], key[3].rstrip("/") if key[3] else None, key[4]):
+        if (kp[0], kp[1], kp[2], kp[3].rstrip("/") if kp[3] else None, kp[4]) == (key[0], key[1], key[2], key[3].rstrip("/") if key[3] else None, key[4]) and kp[5] != key[5]:
+            v.append(("key-isolation:transport-shared-across-proxy-identities", f"request {k} for {key} written to a transport opened for {kp}"))
+        elif (kp[0], kp[1], kp[2], kp[3].rstrip("/") if kp[3] else None, kp[4]) != (key[0], key[1], key[2], key[3].rstrip("/") if key[3] else None, key[4]):
             v.append(("key-isolation:transport-shared-across-endpoints", f"request {k} for {key} written to a transport opened for {kp}"))
         earlier = [(e, kind, org) for e, kind, org in taint_iter.get(ti, []) if e is not None and e < it and not kind.startswith("client-")]
         # a taint only counts if it stems from an earlier request on this transport
@@ -921,6 +946,18 @@ def run_shard(spec, rec):
                         v, obs = run_case(case, rec, seed=spec["seed"])
                         report(rec, case, v, obs)
             rec.set_exhaustive("ordered pairs/triples of endpoints differing in one key component (scheme, port, host, proxy, TLS setting)", True)
+        if spec["sub"] == 1:
+            # proxy identity: every ordered pair/triple of plain-http requests via a proxy that differ in one component of the proxy identity
+            # (proxy URL, proxy_auth user, proxy_headers names / values / order) or in none; the first is issued again at the end
+            for n in (2, 3):
+                for ci, combo in enumerate(itertools.permutations(PROXY_ENDPOINTS, n)):
+                    if n == 3 and (ci + spec["seed"]) % 4:
+                        continue
+                    for tail in (combo[0], combo[-1]):
+                        case = {"reqs": [mk("exact", endpoint=e) for e in combo] + [mk("exact", endpoint=tail)], "gap": 0.5}
+                        v, obs = run_case(case, rec, seed=spec["seed"])
+                        report(rec, case, v, obs)
+            rec.set_exhaustive("ordered pairs of proxied endpoints differing in one component of the proxy identity (proxy url, proxy_auth, proxy_headers names/values/order) or none", True)
         rec.set_exhaustive("behaviour x delay x mode in position 2 of a 4-request history" + ("" if spec["stride"] == 1 else f" (1/{spec['stride']} sample per seed)"), spec["stride"] == 1)
     elif kind in ("upgrade", "flow", "misc"):
         cases = list(block_cases(kind, spec["full"]))
